@@ -3,7 +3,7 @@
    that it contains nothing but statements closed by [exact]. *)
 From JV Require Import Sem Gen Spec SpecX.
 From JV.Proofs Require Import SpecFacts Cal Core SpecSets.
-Require JV.Proofs.IterCore.
+Require JV.Proofs.NthDate.
 Open Scope Z_scope.
 
 Lemma C09_none_iff_empty_lemma : forall c y m, ValidCal c -> in_i32 y ->
